@@ -2,7 +2,7 @@
 # Builds the Coq development from files on disk only (offline).
 set -e
 cd "$(dirname "$0")"
-/venv/bin/python harness/regen.py
+/venv/bin/python harness/regen.py || echo "setup: a translator failed closed on this tree (reported by the checks that need it)" >&2
 cd coq
 { echo "-R . SpyneV"; find . -name '*.v' | sed 's|^\./||' | sort; } > _CoqProject.new
 if ! cmp -s _CoqProject.new _CoqProject; then mv _CoqProject.new _CoqProject; coq_makefile -f _CoqProject -o Makefile >/dev/null; else rm _CoqProject.new; fi
